@@ -13,6 +13,7 @@ import (
 	"github.com/wmnsk/go-pfcp/message"
 	"pgregory.net/rapid"
 
+	"github.com/free5gc/go-upf/internal/report"
 	"github.com/free5gc/go-upf/internal/verif/stack"
 	"github.com/free5gc/go-upf/internal/verif/vcore"
 )
@@ -46,16 +47,21 @@ type Case struct {
 	// all their retention timers fire while nobody serves them (the loop's timer queue holds 64 expiries)
 	Many   int `json:"many,omitempty"`
 	BusyMs int `json:"busy_ms,omitempty"`
+	// Sustain: requests with fresh sequence numbers keep arriving for about three windows, so that windows end all the time while
+	// the loop is admitting and answering other requests
+	Sustain bool `json:"sustain,omitempty"`
 }
 
 type Stats struct {
 	Unanswered int
 	Keys       int
+	Sustained  bool // requests kept arriving while windows ended
 	Busy       bool // the loop was busy while the retention timers of a burst fired
 }
 
 // Run plays the case on a fresh server.
 func Run(c Case) (v *vcore.Violation, stt Stats) {
+	vcore.Journal(map[string]any{"window": c})
 	d := stack.NewModelDriver()
 	gate := make(chan struct{})
 	entered := make(chan struct{}, 1)
@@ -189,6 +195,39 @@ func Run(c Case) (v *vcore.Violation, stt Stats) {
 			st.Sock(sock).Drain()
 		}
 	}
+	if c.Sustain {
+		seq := uint32(20000)
+		for t1 := time.Now(); time.Since(t1) < 3*window+60*time.Millisecond; {
+			for j := 0; j < 48; j++ {
+				seq++
+				if err := st.Send(int(seq%2), stack.Marshal(message.NewHeartbeatRequest(seq, ts, nil))); err != nil {
+					panic(err)
+				}
+				if j == 0 {
+					kk := k{int(seq % 2), seq}
+					if !used[kk] && len(order) < 400 {
+						used[kk] = true
+						order = append(order, kk)
+						hbKey[kk] = true
+					}
+				}
+			}
+			time.Sleep(500 * time.Microsecond)
+			for _, sock := range st.AllSocks() {
+				st.Sock(sock).Drain()
+			}
+		}
+		stt.Sustained = true
+		if err := st.Barrier(); err != nil {
+			if e, ok := err.(*stack.ErrDead); ok {
+				return vcore.Violatef(e.Info.Key, "sustained requests: UPF fatal exit: %.400s", e.Info.Msg), stt
+			}
+			return vcore.Violatef("stuck", "sustained requests: %v", err), stt
+		}
+		for _, sock := range st.AllSocks() {
+			st.Sock(sock).Drain()
+		}
+	}
 	stt.Keys = len(order)
 	// more than the window after the last request
 	time.Sleep(2*window + 30*time.Millisecond)
@@ -246,6 +285,7 @@ func Gen(t *rapid.T) Case {
 			Seq:  rapid.SampledFrom([]uint32{1, 2, 3, 0, 1<<24 - 1}).Draw(t, "seq"),
 		})
 	}
+	c.Sustain = rapid.IntRange(0, 3).Draw(t, "sustain") == 0
 	if rapid.IntRange(0, 5).Draw(t, "burst") == 0 {
 		c.Many = rapid.SampledFrom([]int{30, 64, 65, 100, 200}).Draw(t, "many")
 		c.BusyMs = rapid.SampledFrom([]int{0, 30, 150, 300}).Draw(t, "busy_ms")
@@ -365,4 +405,138 @@ func RunStale(c StaleCase) (v *vcore.Violation, skipped string) {
 func GenStale(t *rapid.T) StaleCase {
 	return StaleCase{RetransMs: 300, MaxRetrans: 2, DupPct: rapid.SampledFrom([]int{25, 45, 60}).Draw(t, "dup_pct"),
 		Peer: rapid.SampledFrom([]int{0, 1, 100}).Draw(t, "peer"), Seq: rapid.SampledFrom([]uint32{1, 7, 1<<24 - 1}).Draw(t, "seq")}
+}
+
+// ---------------------------------------------------------------- an answer that could not be sent
+//
+// The answer to a request is kept for the retention window whether or not the socket took it: when the first transmission of
+// a response fails locally (full device queue, filter, route flap - here: the server's socket refuses writes while the request
+// is served), the request has been executed all the same, and the peer's retransmission must get that answer - once the socket
+// works again - without being executed a second time.
+
+type LostCase struct {
+	Kind string `json:"kind"` // est | mod | del | hb
+	Dups int    `json:"dups"` // retransmissions after the socket works again (>= 1)
+}
+
+// served waits until the loop has served everything that was queued when it is called: the receive queue is empty, and a
+// no-op report posted afterwards has been taken (the loop is single-threaded: whatever it was doing before is done by then).
+// Served: see served.
+func Served(st *stack.Stack) { served(st) }
+
+func served(st *stack.Stack) {
+	for t1 := time.Now(); time.Since(t1) < 5*time.Second; {
+		if rcv, _, _ := st.Srv.VerifQueues(); rcv == 0 {
+			break
+		}
+		time.Sleep(50 * time.Microsecond)
+	}
+	time.Sleep(2 * time.Millisecond) // a datagram may still be between the socket and the receive queue
+	st.Srv.NotifySessReport(report.SessReport{SEID: 0xdead0002})
+	for t1 := time.Now(); time.Since(t1) < 5*time.Second; {
+		if rcv, sr, _ := st.Srv.VerifQueues(); sr == 0 && rcv == 0 {
+			break
+		}
+		time.Sleep(50 * time.Microsecond)
+	}
+	st.Srv.NotifySessReport(report.SessReport{SEID: 0xdead0003})
+	for t1 := time.Now(); time.Since(t1) < 5*time.Second; {
+		if _, sr, _ := st.Srv.VerifQueues(); sr == 0 {
+			break
+		}
+		time.Sleep(50 * time.Microsecond)
+	}
+}
+
+func RunLost(c LostCase) (v *vcore.Violation) {
+	d := stack.NewModelDriver()
+	st, err := stack.New(stack.Opts{Driver: d, Nodes: 1})
+	if err != nil {
+		panic(fmt.Sprintf("infrastructure: %v", err))
+	}
+	defer func() {
+		st.Srv.VerifFailSends(false)
+		if cerr := st.Close(); cerr != nil && v == nil {
+			v = vcore.Violatef("stop-hang", "%v", cerr)
+		}
+		if st.Dead != nil && v == nil {
+			v = vcore.Violatef(st.Dead.Key, "UPF fatal exit: %.600s", st.Dead.Msg)
+		}
+	}()
+	r := stack.NewRunner(st, d)
+	far := []stack.RuleOp{{Verb: "create", Kind: "FAR", ID: 1, Action: 2, HasAction: true}}
+	for _, op := range []stack.Op{{Kind: "assoc", Peer: 0, Node: 0, Sess: -1, Seq: 0x4001}, {Kind: "est", Peer: 0, Node: 0, Sess: -1, CP: 0x41, Seq: 0x4002, Rules: far}} {
+		if o := r.Step(op); o.Dead != nil || o.Stuck {
+			return vcore.Violatef("prefix", "prefix failed")
+		}
+	}
+	var op stack.Op
+	var wantType uint8
+	switch c.Kind {
+	case "est":
+		op, wantType = stack.Op{Kind: "est", Peer: 0, Node: 0, Sess: -1, CP: 0x42, Rules: far}, message.MsgTypeSessionEstablishmentResponse
+	case "mod":
+		op, wantType = stack.Op{Kind: "mod", Peer: 0, Sess: 0, Rules: []stack.RuleOp{{Verb: "create", Kind: "FAR", ID: 2, Action: 2, HasAction: true}}}, message.MsgTypeSessionModificationResponse
+	case "del":
+		op, wantType = stack.Op{Kind: "del", Peer: 0, Sess: 0}, message.MsgTypeSessionDeletionResponse
+	default:
+		op, wantType = stack.Op{Kind: "hb", Peer: 0, Sess: -1}, message.MsgTypeHeartbeatResponse
+	}
+	b, err := r.Build(op, 0x4100)
+	if err != nil {
+		panic(err)
+	}
+	d.TakeCalls()
+	st.Srv.VerifFailSends(true)
+	if err := st.Send(0, b); err != nil {
+		panic(err)
+	}
+	served(st)
+	st.Srv.VerifFailSends(false)
+	first := d.TakeCalls()
+	if err := st.Barrier(); err != nil {
+		return vcore.Violatef("stuck", "%v", err)
+	}
+	if got := st.Sock(0).Drain(); len(got) != 0 {
+		return vcore.Violatef("harness", "a datagram arrived although the server's socket refused writes")
+	}
+	if c.Kind != "hb" && len(first) == 0 {
+		return vcore.Violatef("first-copy-not-executed", "%s request: no data-plane call although only the sending of its answer failed", c.Kind)
+	}
+	var answer []byte
+	for i := 0; i < max(c.Dups, 1); i++ {
+		o := r.SendRaw(0, b)
+		if o.Dead != nil {
+			return vcore.Violatef(o.Dead.Key, "retransmission %d: UPF fatal exit", i)
+		}
+		if len(o.Calls) != 0 {
+			return vcore.Violatef("dup-executed", "retransmission %d of a %s request whose answer could not be sent caused data-plane calls %s", i, c.Kind, vcore.JSON(o.Calls))
+		}
+		got := o.Rx[0]
+		if len(got) != 1 {
+			return vcore.Violatef("lost-answer-never-sent", "the answer to a %s request could not be sent (the socket refused one write); retransmission %d of the request, sent when the socket worked again, got %d datagram(s): the request was executed (%d data-plane calls) and is never answered",
+				c.Kind, i, len(got), len(first))
+		}
+		m, perr := message.Parse(got[0].B)
+		if perr != nil || m.MessageType() != wantType || m.Sequence() != 0x4100 {
+			return vcore.Violatef("dup-answer-differs", "retransmission %d of the %s request answered %x", i, c.Kind, got[0].B)
+		}
+		if answer == nil {
+			answer = got[0].B
+		} else if string(answer) != string(got[0].B) {
+			return vcore.Violatef("dup-answer-differs", "retransmission %d answered %x, the one before %x", i, got[0].B, answer)
+		}
+	}
+	return nil
+}
+
+// LostPart runs the scenario for every kind of request.
+func LostPart(t vcore.Failer) {
+	for _, k := range []string{"est", "mod", "del", "hb"} {
+		c := LostCase{Kind: k, Dups: 2}
+		vcore.E.Eval()
+		vcore.E.Class("answer_that_could_not_be_sent_then_retransmission")
+		vcore.E.NonTrivial(vcore.FP("lost", k))
+		vcore.Report(t, RunLost(c), map[string]any{"lost": c})
+	}
 }
